@@ -24,7 +24,8 @@ Inductive expr :=
 | ECall (name : bytes) (args : list arg)            (* name(a1, …) *)
 | ENot (e : expr)                                   (* !e *)
 | EIndex (l : option expr) (i : Z)                  (* l[i] *)
-| ESlice (l : option expr) (a b c : option Z) (r : rhs)   (* l[a:b:c] r *)
+| ESlice (l : option expr) (a b : option Z) (c : option (option Z)) (r : rhs)
+    (* l[a:b] r (c = None), l[a:b:] r (Some None), l[a:b:c] r (Some (Some c)) *)
 | EListProj (l : option expr) (r : rhs)             (* l[*] r *)
 | EFlatten (l : option expr) (r : rhs)              (* l[] r *)
 | EFilter (l : option expr) (c : expr) (r : rhs)    (* l[?c] r *)
@@ -47,6 +48,9 @@ Definition cmp_tok (op : cmpop) : tokType :=
   match op with
   | CmpEQ => tEQ | CmpNE => tNE | CmpLT => tLT | CmpLE => tLTE | CmpGT => tGT | CmpGE => tGTE
   end.
+
+(* the step of a slice: absent when there is no second colon or nothing after it *)
+Definition cjoin (c : option (option Z)) : option Z := match c with Some (Some z) => Some z | _ => None end.
 
 Definition N0 (ty : astNodeType) (c : list node) : node := Node ty NVNone c.
 Definition ident_node : node := Node ASTIdentity NVNone [].
@@ -73,7 +77,7 @@ Fixpoint compile (e : expr) : node :=
   | ENot x => N0 ASTNotExpression [compile x]
   | EIndex l i => N0 ASTIndexExpression [lhs l; Node ASTIndex (NVInt i) []]
   | ESlice l a b c r =>
-    N0 ASTProjection [N0 ASTIndexExpression [lhs l; Node ASTSlice (NVSlice a b c) []]; crhs r]
+    N0 ASTProjection [N0 ASTIndexExpression [lhs l; Node ASTSlice (NVSlice a b (cjoin c)) []]; crhs r]
   | EListProj l r => N0 ASTProjection [lhs l; crhs r]
   | EFlatten l r => N0 ASTProjection [N0 ASTFlatten [lhs l]; crhs r]
   | EFilter l c r => N0 ASTFilterProjection [lhs l; crhs r; compile c]
@@ -146,7 +150,7 @@ Fixpoint render (e : expr) : list token :=
   | EIndex l i => lhs l ++ [tk tLbracket (str "["); tk tNumber (int_text i); tk tRbracket (str "]")]
   | ESlice l a b c r =>
     lhs l ++ [tk tLbracket (str "[")] ++ opt_num a ++ [tk tColon (str ":")] ++ opt_num b
-        ++ (match c with Some _ => [tk tColon (str ":")] ++ opt_num c | None => [] end)
+        ++ (match c with Some o => [tk tColon (str ":")] ++ opt_num o | None => [] end)
         ++ [tk tRbracket (str "]")] ++ rrhs r
   | EListProj l r =>
     lhs l ++ [tk tLbracket (str "["); tk tStar (str "*"); tk tRbracket (str "]")] ++ rrhs r
@@ -231,14 +235,18 @@ Fixpoint rl (e : expr) : Z :=
   end.
 
 (* the leftmost form of e *)
-Inductive headkind := HIdent | HQuoted | HMulti | HStar | HBracket | HFilter | HFlatten | HOther.
+Inductive headkind := HIdent | HQuoted | HMulti | HMultiStar | HStar | HBracket | HFilter | HFlatten | HOther.
+(* [*] as a multi-select list of the bare wildcard: only after a dot, elsewhere [*] is the list wildcard *)
+Definition star_list (es : list expr) : bool :=
+  match es with [EValProj None RNone] => true | _ => false end.
 Fixpoint head (e : expr) : headkind :=
   let ho (l : option expr) (k : headkind) := match l with Some x => head x | None => k end in
   match e with
   | EIdent false _ => HIdent
   | EIdent true _ => HQuoted
   | ECall _ _ => HIdent
-  | EMSList _ | EMSHash _ => HMulti
+  | EMSList es => if star_list es then HMultiStar else HMulti
+  | EMSHash _ => HMulti
   | EIndex l _ => ho l HBracket
   | ESlice l _ _ _ _ => ho l HBracket
   | EListProj l _ => ho l HBracket
@@ -269,9 +277,17 @@ Fixpoint raw_ok (s : bytes) : bool :=
 
 Definition opt_int64 (o : option Z) : bool := match o with Some z => in_int64 z | None => true end.
 
+(* nud position: anywhere but directly after a dot.  There "[*]" is the list
+   wildcard, so a multi-select list holding only the bare wildcard cannot be
+   written (after a dot, a.[*], it can). *)
+Definition npos (e : expr) : bool := match head e with HMultiStar => false | _ => true end.
+
 (* well-precedenced, well-formed trees: exactly the trees whose spelling needs no
    further parentheses.  An operand to the left of an operator of level p must
-   not be open below p; an operand to the right must be wholly tighter than p. *)
+   not be open below p; an operand to the right must be wholly tighter than p.
+   Every operand that is not the left operand of its parent and does not follow a
+   dot is in nud position (npos).  Lexical conditions on names and strings are
+   not part of wp (Proofs/LexText.v, texty). *)
 Fixpoint wp (e : expr) : bool :=
   let left_ok (l : option expr) (p : Z) :=
       match l with Some x => wp x && (p <=? rl x) | None => true end in
@@ -279,41 +295,38 @@ Fixpoint wp (e : expr) : bool :=
       match r with
       | RNone => true
       | RDot x => wp x && (p <? lmin x) &&
-                  match head x with HIdent | HQuoted | HMulti | HStar => true | _ => false end
+                  match head x with HIdent | HQuoted | HMulti | HMultiStar | HStar => true | _ => false end
       | RBrk x => wp x && (p <? lmin x) &&
                   match head x with HBracket | HFilter => true | _ => false end
       end in
   match e with
-  | EIdent false name => valid_unquoted name
-  | EIdent true _ => true
+  | EIdent _ _ => true
   | ECurrent => true
   | ELit v => is_json v
-  | ERaw s => raw_ok s
-  | EParen x => wp x
+  | ERaw _ => true
+  | EParen x => wp x && npos x
   | EMSList es =>
-    (* "[*]" is the list wildcard, not a one-element multi-select list *)
-    negb (match es with [] => true | [EValProj None RNone] => true | _ => false end) && forallb wp es
+    negb (match es with [] => true | _ => false end) && forallb (fun x => wp x && npos x) es
   | EMSHash kvs =>
     negb (match kvs with [] => true | _ => false end) &&
-    forallb (fun kv : bool * bytes * expr => (if fst (fst kv) then true else valid_unquoted (snd (fst kv))) && wp (snd kv)) kvs
+    forallb (fun kv : bool * bytes * expr => wp (snd kv) && npos (snd kv)) kvs
   | ECall name args =>
-    valid_unquoted name &&
-    forallb (fun a => match a with AExpr x => wp x | ARef x => wp x end) args
-  | ENot x => wp x && (lvl_not <? lmin x)
+    forallb (fun a => match a with AExpr x => wp x && npos x | ARef x => wp x && npos x end) args
+  | ENot x => wp x && (lvl_not <? lmin x) && npos x
   | EIndex l i => left_ok l lvl_bracket && in_int64 i
   | ESlice l a b c r =>
-    left_ok l lvl_bracket && opt_int64 a && opt_int64 b && opt_int64 c && rhs_ok r lvl_star
+    left_ok l lvl_bracket && opt_int64 a && opt_int64 b && opt_int64 (cjoin c) && rhs_ok r lvl_star
   | EListProj l r => left_ok l lvl_bracket && rhs_ok r lvl_star
   | EFlatten l r => left_ok l lvl_flatten && rhs_ok r lvl_flatten
-  | EFilter l c r => left_ok l lvl_filter && wp c && rhs_ok r lvl_filter
+  | EFilter l c r => left_ok l lvl_filter && wp c && npos c && rhs_ok r lvl_filter
   | EValProj l r => left_ok l lvl_dot && rhs_ok r lvl_star
   | ESub l r =>
     wp l && (lvl_dot <=? rl l) && wp r && (lvl_dot <? lmin r) &&
-    match head r with HIdent | HQuoted | HMulti => true | _ => false end
-  | EPipe l r => wp l && (lvl_pipe <=? rl l) && wp r && (lvl_pipe <? lmin r)
-  | EOr l r => wp l && (lvl_or <=? rl l) && wp r && (lvl_or <? lmin r)
-  | EAnd l r => wp l && (lvl_and <=? rl l) && wp r && (lvl_and <? lmin r)
-  | ECmp _ l r => wp l && (lvl_cmp <=? rl l) && wp r && (lvl_cmp <? lmin r)
+    match head r with HIdent | HQuoted | HMulti | HMultiStar => true | _ => false end
+  | EPipe l r => wp l && (lvl_pipe <=? rl l) && wp r && (lvl_pipe <? lmin r) && npos r
+  | EOr l r => wp l && (lvl_or <=? rl l) && wp r && (lvl_or <? lmin r) && npos r
+  | EAnd l r => wp l && (lvl_and <=? rl l) && wp r && (lvl_and <? lmin r) && npos r
+  | ECmp _ l r => wp l && (lvl_cmp <=? rl l) && wp r && (lvl_cmp <? lmin r) && npos r
   end.
 
 (* a quoted identifier directly followed by "(" is rejected by the grammar
